@@ -42,7 +42,8 @@ pub fn plan(prop: &str, _tier: Tier) -> Vec<(String, u64)> {
             Tier::Quick => vec![v("release", 8), v("dbg", 8), v("asan", 8), v("miri", 8)],
             Tier::Thorough => vec![v("release", 16), v("dbg", 16), v("asan", 16), v("miri", 16), v("valgrind", 8)],
         },
-        "C13" | "C14" | "C15" | "C16" => vec![v("release", 16)],
+        "C13" | "C14" | "C15" => vec![v("release", 12), v("dbg", 4)],
+        "C16" => vec![v("release", 14), v("dbg", 2)],
         "C17" => match _tier {
             Tier::Quick => vec![v("release", 8), v("dbg", 4), v("asan", 8), v("miri", 8)],
             Tier::Thorough => vec![v("release", 16), v("dbg", 8), v("asan", 16), v("miri", 16), v("valgrind", 8)],
@@ -153,6 +154,10 @@ pub fn replay(r: &Value) -> Result<String, (String, String)> {
         }
         "splay-exhaustive" => crate::splaymon::exhaustive(r["k"].as_u64().unwrap() as u8, 0, 1, true).map(|x| format!("{} shapes, {} transitions agree", x.shapes, x.transitions)).map_err(|m| ("splay:exhaustive".to_string(), m)),
         "c18" => c18_replay(r),
+        "orientation" => {
+            let mut rng = Rng::keyed(r["seed"].as_u64().unwrap_or(1), "C10/orientation", r["shard"].as_u64().unwrap_or(0));
+            c10_orientation(&mut rng, 400_000).map(|n| format!("{} orientation queries agree", n))
+        }
         "c12-history" => {
             let mut rng = Rng::keyed(r["seed"].as_u64().unwrap_or(1), "C12/history", r["index"].as_u64().unwrap_or(0));
             c12_history(&mut rng, r["size"].as_u64().unwrap_or(1) as usize, 1100, &mut Default::default()).map(|_| "history deterministic".to_string())
